@@ -107,6 +107,13 @@ func (g *srvGen) variant(r2 *rand.Rand) int {
 		a.cid = append(append([]byte{}, pre...), 1, byte(r2.Intn(256)))
 		b.cid = append(append([]byte{}, pre...), 2)
 	}
+	// two interfaces of one host (or two clones of one image): RFC 4361 identifiers with the same DUID that differ in the IAID only
+	if len(g.clients) >= 2 && r2.Intn(5) == 0 {
+		a, b := g.clients[0], g.clients[1]
+		duid := append([]byte{0, 1, 0, 1}, randBytes(r2, 10)...)
+		a.cid = append([]byte{0xff, 0, 0, 0, 1}, duid...)
+		b.cid = append([]byte{0xff, 0, 0, 0, 2}, duid...)
+	}
 	// a hardware address of all zeros (a client identifier tells such clients apart) - an address like any other
 	if r2.Intn(12) == 0 {
 		for _, c := range g.clients {
